@@ -3,6 +3,7 @@ import ast
 import json
 import os
 import random
+import zlib
 import shutil
 import tempfile
 
@@ -38,6 +39,9 @@ class DefGen:
                 pos = "plain"
             out.append({"kind": kind, "name": nm, "kids": kids, "pos": pos, "in_class": in_class})
         return out
+
+
+TAILS = [None, None, "comment_body", "comment_deeper", "blank_comment", "multiline_return", "if_with_comment", "multiline_string"]
 
 
 def render(defs, indent, lines):
@@ -95,11 +99,29 @@ def render(defs, indent, lines):
             lines.append(J + ("async def" if pos in ("async", "decorated_async") else "def") + " %s(%s):" % (d["name"], args))
             lines.append(J + "    value = a")
             render(d["kids"], inner + 1, lines)
-            lines.append(J + "    return value")
+            # how the definition ENDS (chosen from the name, so that every renderer of the same skeleton agrees): the span ends with the last statement —
+            # not with a comment that follows it at body indentation or deeper, and it does include the continuation lines of a multi-line last statement
+            tail = TAILS[zlib.crc32(d["name"].encode()) % len(TAILS)]
+            if tail == "multiline_return":
+                lines += [J + "    return (value,", J + "            1)  # trailing comment on the last line"]
+            elif tail == "if_with_comment":
+                lines += [J + "    if value:", J + "        return value", J + "        # comment inside the last block", J + "    # comment after the last block"]
+            elif tail == "multiline_string":
+                lines += [J + "    return \"\"\"text", J + "    # not a comment", J + "    \"\"\""]
+            else:
+                lines.append(J + "    return value")
+                if tail == "comment_body":
+                    lines.append(J + "    # trailing comment at body indentation")
+                elif tail == "comment_deeper":
+                    lines.append(J + "            # trailing comment, deeper")
+                elif tail == "blank_comment":
+                    lines += ["", J + "    # after a blank line", ""]
         else:
             lines.append(J + "class %s:" % d["name"])
             lines.append(J + "    attr = 1")
             render(d["kids"], inner + 1, lines)
+            if zlib.crc32(d["name"].encode()) % 3 == 0:
+                lines.append(J + "    # trailing comment in the class body")
         if pos == "try":
             lines += [I + "except Exception:", I + "    pass"]
         if pos == "match":
@@ -164,8 +186,10 @@ def run(tier, seed, replay=None):
     for i in range(nmod):
         g = DefGen(rng, dup_prob=0.12 if i % 3 == 0 else 0.0)
         mods.append(g.defs(0, False, 4))
+    # byte-identical files (vendored copies, boilerplate): each file still lists its own definitions, once
+    mods += [mods[1], mods[1], mods[min(3, len(mods) - 1)]]
     tmp = tempfile.mkdtemp(prefix="pv_c04_")
-    hist = {"modules": len(mods), "functions": 0, "classes": 0, "dup_names": 0, "positions": {}}
+    hist = {"modules": len(mods), "functions": 0, "classes": 0, "dup_names": 0, "positions": {}, "byte_identical_files": 3}
     samples = []
     nontrivial = set()
     try:
